@@ -222,6 +222,20 @@ class ValueGen:
                 return ("kw", r.choice([None, None, self.name()]), self.name())
             return ("sym", r.choice([None, None, self.name()]), r.choice([self.name(), self.name(), "/", "+", "-", ".", "<=", "->x"]))
         n = r.choice([0, 1, 2, 3, 5])
+        if r.random() < 0.25:
+            # wide collections: around the builders' inline capacity and every doubling after it;
+            # pairwise distinct elements / keys so that sets and maps survive the duplicate screening
+            n = r.choice([7, 8, 9, 12, 13, 16, 17, 31, 32, 33, 64, 65])
+            mk = [lambda i: ("int", i * 3 - 50), lambda i: ("kw", None, "k%d" % i), lambda i: ("str", b"s%d" % i),
+                  lambda i: ("sym", "ns", "y%d" % i), lambda i: ("vec", [("int", i)]), lambda i: ("char", 0x100 + i)]
+            distinct = [r.choice(mk)(i) for i in range(n)]
+            kind = r.choice(["list", "vec", "set", "map", "map", "map"])
+            if kind == "map":
+                body = []
+                for d in distinct:
+                    body += [d, self.value(0)]
+                return ("map", body)
+            return (kind, distinct)
         if k < 0.62:
             return ("list", [self.value(depth - 1) for _ in range(n)])
         if k < 0.76:
